@@ -13,6 +13,7 @@ def run(ctx):
         "of the walk depends on anything but overhang terms (any arithmetic fork on a module's length or record is the "
         "violation). K7: target_sequence is the circular interval [s1,s3) of the module's own record. K14: one step "
         "appends only the consumed module's fragment. With C01 the product differs only in that module's fragment."
+        ' identity: parts compare and hash by identity (the match cache is keyed by the instance). screen-locality: the illegal-site screen digests the matched region only, so validity does not depend on the backbone a replacement is stored in.'
     )
     records = ctx.guard(collect_walk_effects, ctx)
     if records is not None:
